@@ -1,6 +1,8 @@
 (* C04 — The WSGI and ASGI stacks are observationally equivalent.  Statements only. *)
-From Coq Require Import List NArith Bool Arith.
-From Baize Require Import Lib.Wire Lib.Order C02.Model Resp.Model C04.Model C04.Proofs C04.Apps C04.AppsProofs.
+From Coq Require Import List NArith ZArith Bool Arith.
+From Baize Require Import Lib.Wire Lib.Order Lib.Path C02.Model C02.Proofs Resp.Model C04.Model C04.Proofs C04.Apps
+                          C04.StaticProofs C04.AppsProofs.
+From Baize Require C07.Model C07.Proofs C09.Model C09.Proofs C14.Model C18.Model C18.Proofs.
 Import ListNotations.
 
 (* Request view, headers: the mapping the WSGI request builds from the CGI rendering
@@ -45,6 +47,123 @@ Theorem host_view_equiv : forall r : request,
   C09.Model.wsgi_host (env_get (lit "HTTP_HOST") (environ_headers r)) = C09.Model.asgi_host (scope_headers r).
 Proof. exact host_equiv. Qed.
 
+(* Static files.  [static_wsgi k c e rq s] is the complete answer of baize.wsgi.Files.__call__
+   (k = KFiles) / Pages.__call__ (k = KPages), [static_asgi] that of the ASGI classes
+   (C04/Static.v), for a configuration c (directory, cacheability, max_age; handle_404 = None), an
+   environment e (the file system as a function of the path text with content, st_mtime_ns and
+   st_ctime_ns of every regular file, and the standard-library functions C02 / C14 take as inputs),
+   an abstract request rq and the state s the dispatchers above left (root path, path).
+   For EVERY file system, configuration, path and header value: both interfaces give the same
+   observation — the same status, the same header list in the same order and the same body bytes,
+   or the same HTTPException (404: nothing to serve; 400: the redirect URL cannot be built) — and
+   it is one of these two (no other exception, no missing start).  Premises:
+     wf_dir            self.directory is a normalised absolute path other than "/" (what
+                       normalize_dir_path returns; C07 normalize_dir_wf) — otherwise relpath can raise;
+     no '_' in names   how a gateway folds "If_None_Match" into HTTP_IF_NONE_MATCH is not baize's;
+     distinct names    URL(scope=...) takes the first Host header, the environ holds the last;
+     known scheme      http / https / ws / wss — otherwise _build_url raises KeyError on both;
+     http scope with a path   (an ASGI lifespan scope has no "headers");
+     root path ++ path ASCII  URL(environ=...) re-decodes the Latin-1 text as UTF-8; a WSGI gateway
+                       presents a non-ASCII path as different text (PEP 3333), and Files then looks
+                       for a different file name: the recorded finding wsgi-non-ascii-not-found of C07.
+   The conditional headers, Range and If-Range are read by each interface in its own way from the
+   one abstract header list (environ.get on the CGI name / last scope header of that name). *)
+Theorem static_equiv : forall (k : C07.Model.kind) (c : scfg) (e : senv) (rq : areq) (s : state),
+  C07.Model.wf_dir (sc_dir c) = true ->
+  Forall (fun h => ~ In 95%N (fst h)) (rq_headers (aq_request rq)) ->
+  NoDup (map (fun h => lower (fst h)) (rq_headers (aq_request rq))) ->
+  C18.Model.default_port (aq_scheme rq) <> None ->
+  C09.Model.lifespan (s_req s) = false -> (exists p, C09.Model.path (s_req s) = Some p) ->
+  Forall (fun ch => (ch < 128)%N)
+         (C09.Model.get (C09.Model.root (s_req s)) ++ C09.Model.get (C09.Model.path (s_req s))) ->
+  static_wsgi k c e rq s = static_asgi k c e rq s /\
+  match static_asgi k c e rq s with OResp _ _ _ | OHttp _ => True | _ => False end.
+Proof. exact static_equiv_proof. Qed.
+
+(* What a static leaf answers, on either interface i (run_static i = static_wsgi / static_asgi;
+   cond_of i / range_of i: the If-None-Match, If-Modified-Since / Range, If-Range texts as that
+   interface reads them).  By cases on C07's decision for the request path:
+     Served p id    p is the regular file id, and it is the one C07's lexical resolution names inside
+                    the directory ([resolution]: serves_resolved_files / serves_resolved_pages).
+                    If C14's decision ([c14_not_modified]: if_none_match on the ETag when
+                    If-None-Match is not empty, else if_modified_since on int(st_ctime)) says so, the
+                    answer is 304 with Cache-Control, Vary, Content-Length: 0 and an empty body —
+                    and only then: otherwise it is the FileResponse for that file, status
+                    200 / 206 / 400 / 416 as C02's model computes it, C02's header list with
+                    Cache-Control and Vary appended to the mapping before the per-range entries
+                    ([file_headers]; a rejected Range carries neither), and C02's [expected_body]:
+                    exactly the file's content for 200 on GET, exactly the slice for a single
+                    range, the multipart parts for several, the 400 text or nothing otherwise.
+     Redirect loc   Pages only, path without trailing slash naming a directory: 307 with Location
+                    and Content-Length: 0 and no body, or HTTPException(400).
+     NotFound       HTTPException(404).
+   Nothing else happens. *)
+Theorem static_serves_file : forall (i : C14.Model.iface) (k : C07.Model.kind) (c : scfg) (e : senv)
+    (rq : areq) (s : state) (path : bytes),
+  C07.Model.wf_dir (sc_dir c) = true ->
+  (k = C07.Model.KPages -> se_fs e (sc_dir c ++ SL :: C07.Model.INDEX_HTML) <> C07.Model.NDir) ->
+  C18.Model.default_port (aq_scheme rq) <> None ->
+  C09.Model.lifespan (s_req s) = false -> C09.Model.path (s_req s) = Some path ->
+  let fs := se_fs e in
+  let dir := sc_dir c in
+  let ans := run_static i k c e rq s in
+  match fst (C07.Model.app_call k fs (se_cwd e) dir path) with
+  | C07.Model.Served p id =>
+      resolution k fs dir path p id /\
+      let content := fm_content (se_meta e id) in
+      let '(inm, ims) := cond_of i rq in
+      if c14_not_modified e id inm ims
+      then ans = OResp 304 (headers_304 c) []
+      else
+        let '(rg, ifr) := range_of i rq in
+        let fr := file_req_of e (is_head rq) rg ifr p id in
+        let st := w_status (wsgi_file fr) in
+        fr_file fr = content /\
+        ans = OResp st (file_headers (cache_headers c) fr (w_headers (wsgi_file fr))) (expected_body fr) /\
+        (st = 200 \/ st = 206 \/ st = 400 \/ st = 416) /\
+        (st = 200 -> is_head rq = false -> expected_body fr = content) /\
+        (forall s0 e0, decide fr = Single s0 e0 ->
+           st = 206 /\ s0 < e0 <= length content /\
+           (is_head rq = false -> expected_body fr = slice content s0 e0)) /\
+        (forall l, decide fr = Several l ->
+           st = 206 /\ (is_head rq = false -> expected_body fr = flat_map (part fr) l ++ closing (fr_boundary fr))) /\
+        (st = 400 \/ st = 416 ->
+           (exists msg, decide fr = Reject400 msg /\ expected_body fr = if is_head rq then [] else msg) \/
+           (decide fr = Reject416 /\ expected_body fr = []))
+  | C07.Model.Redirect loc =>
+      k = C07.Model.KPages /\ loc = path ++ [SL] /\ ends_slash path = false /\
+      (exists t, C07.Model.lexical_target dir path = Some t /\ fs t = C07.Model.NDir) /\
+      (ans = OHttp 400 \/
+       exists location, ans = OResp 307 [(lit "location", location); (lit "content-length", lit "0")] [])
+  | C07.Model.NotFound => ans = OHttp 404
+  | C07.Model.Crash => False
+  end.
+Proof. exact static_serves_file_proof. Qed.
+
+(* The Location of Pages' redirect, in the vocabulary of C18 (url_components): for a request whose
+   authority comes from a well-formed Host header or, without one, from the server address and
+   port ([src], [request_of]), a root path ++ path and a query of C18's grammar: when the redirect is
+   answered at all it is 307 with
+     Location: iri_to_uri("//" + authority + root path + path + "/" + ["?" + query])
+   — the Host header verbatim, otherwise the server address with the default port elided and an
+   IPv6 literal bracketed; the scheme is dropped, the query kept; percent-coding by iri_to_uri —
+   and never HTTPException(400): urlsplit accepts the scheme-less text urlunsplit made.
+   The WSGI answer is the same one by static_equiv. *)
+Theorem static_redirect_location : forall (c : scfg) (e : senv) (rq : areq) (s : state) (p q : bytes)
+    (sch : bytes) (d : N) (src : C18.Proofs.source),
+  let root := C09.Model.get (C09.Model.root (s_req s)) in
+  C09.Model.lifespan (s_req s) = false -> C09.Model.path (s_req s) = Some p ->
+  (exists loc, fst (C07.Model.pages_call (se_fs e) (se_cwd e) (sc_dir c) p) = C07.Model.Redirect loc) ->
+  utf8_decode (rq_query (aq_request rq)) = Some q ->
+  url_request rq (hget (lit "host") (scope_headers (aq_request rq))) root p q = C18.Proofs.request_of sch src root p q ->
+  C18.Model.default_port sch = Some d -> C18.Proofs.source_ok src = true ->
+  C18.Proofs.path_ok (root ++ p) = true -> C18.Proofs.query_ok q = true ->
+  let location := iri_to_uri (lit "//" ++ C18.Proofs.host_text (C18.Proofs.source_host src)
+                                ++ C18.Proofs.port_text (C18.Proofs.source_port d src)
+                                ++ (root ++ p ++ [47%N]) ++ C18.Proofs.qpart q) in
+  static_asgi C07.Model.KPages c e rq s = OResp 307 [(lit "location", location); (lit "content-length", lit "0")] [].
+Proof. exact static_redirect_location_proof. Qed.
+
 (* Bundled applications.  An application is a tree of any depth and width (C04/Apps.v):
      Leaf view          a view: what it sees of the request (method, root path, path, path
                         parameters, header mapping) -> the response recipe it answers with
@@ -52,22 +171,30 @@ Proof. exact host_equiv. Qed.
      Mount routes       Subpaths: prefixes in front of sub-applications (C09)
      HostSwitch table   Hosts: patterns in front of sub-applications, over any oracle
                         [fullmatch] for Pattern.fullmatch (C09)
+     StaticLeaf k c e   Files / Pages with configuration c on the file system of e (C04/Static.v)
    serve_wsgi runs the tree with the WSGI model functions of C08/C09/C04 on the environ
    rendering of the abstract request, serve_asgi with the ASGI ones on the scope rendering.
    For every tree, every oracle, every digit limit and every abstract request (header names
    without underscore, as in headers_view_equiv; any root path, path, method, Host), provided
    each view answers with recipes response_equiv speaks about (comparable_view: no raising
-   producer, no developer headers on an event stream, file chunk size >= 1):
+   producer, no developer headers on an event stream, file chunk size >= 1) and each static leaf
+   has a well-formed directory (all_leaves):
    both interfaces answer with a response (no exception, no missing start), the status and
    the body bytes are equal, and the header lists are equal — or, when the answering leaf
    is an event stream, the ASGI list is the WSGI list plus connection: keep-alive
    (obs_equiv, headers_equiv in C04/AppsProofs.v).  The 404 of a Router / Subpaths and the
-   404 "Invalid host" of Hosts are among the answers compared. *)
+   404 "Invalid host" of Hosts are among the answers compared.
+   A tree that contains Files / Pages ([has_static a = true]) needs what static_equiv needs of the
+   request ([static_ready]: distinct header names, a scheme URL(...) knows, root path ++ path ASCII)
+   and may also end with both interfaces raising the same HTTPException, which no application of
+   the tree catches (obs_equiv true); for a tree without them nothing changes: no extra premise,
+   a response on both sides (obs_equiv false). *)
 Theorem app_equiv : forall (P : Type) (fullmatch : P -> bytes -> bool) (lim : N) (rq : areq),
   Forall (fun h => ~ In 95%N (fst h)) (rq_headers (aq_request rq)) ->
   forall a : app P,
   all_leaves comparable_view a ->
-  obs_equiv (serve_wsgi fullmatch lim rq a) (serve_asgi fullmatch lim rq a).
+  (has_static a = true -> static_ready rq (init rq)) ->
+  obs_equiv (has_static a) (serve_wsgi fullmatch lim rq a) (serve_asgi fullmatch lim rq a).
 Proof. exact (@app_equiv_proof). Qed.
 
 (* the same at any point below the root: whatever root path, path and path parameters the
@@ -78,7 +205,8 @@ Theorem app_equiv_below : forall (P : Type) (fullmatch : P -> bytes -> bool) (li
   all_leaves comparable_view a ->
   forall s : state,
   C09.Model.lifespan (s_req s) = false /\ (exists p, C09.Model.path (s_req s) = Some p) ->
-  obs_equiv (run_wsgi fullmatch lim rq a s) (run_asgi fullmatch lim rq a s).
+  (has_static a = true -> static_ready rq s) ->
+  obs_equiv (has_static a) (run_wsgi fullmatch lim rq a s) (run_asgi fullmatch lim rq a s).
 Proof. exact (@run_equiv). Qed.
 
 (* non-vacuity: a mount over a router over a view that shows what it saw *)
@@ -87,20 +215,114 @@ Example app_equiv_example :
   let a : app bytes := HostSwitch [(lit "h", Mount [(lit "/api", Route [([C08.Model.Lit (lit "/u/"); C08.Model.Param (lit "id") C08.Model.TInt], Leaf view)])])] in
   let rq := {| aq_request := {| rq_method := lit "GET"; rq_query := []; rq_headers := [(lit "Host", lit "h")];
                                 rq_client := None; rq_body := [] |};
-               aq_root := lit "/r"; aq_path := lit "/api/u/12" |} in
-  all_leaves comparable_view a /\
+               aq_root := lit "/r"; aq_path := lit "/api/u/12"; aq_scheme := lit "http"; aq_server := (lit "s", 80%N) |} in
+  all_leaves comparable_view a /\ has_static a = false /\
   serve_wsgi bytes_eqb 0 rq a =
     OResp 200 [(lit "content-length", lit "12"); (lit "content-type", lit "text/plain; charset=utf-8")] (lit "/r/api|/u/12") /\
   serve_asgi bytes_eqb 0 rq a = serve_wsgi bytes_eqb 0 rq a.
 Proof.
-  cbv zeta. split; [|split; vm_compute; reflexivity].
+  cbv zeta. split; [|split; [reflexivity|split; vm_compute; reflexivity]].
   repeat (constructor; cbn [In]; intros ? [<-|[]]; cbn [snd]). constructor. intro v. exact I.
 Qed.
+
+(* non-vacuity with static leaves: Pages on C07's example tree (/srv/www with sub/index.html,
+   about.html, ..name) below Hosts > Subpaths, beside an echoing view.  The premises of app_equiv
+   hold; a directory URL without slash is redirected (query and Host kept), "/about" finds
+   about.html and a matching If-None-Match revalidates it, a Range request gets the slice, a
+   missing file raises 404 — on both interfaces alike. *)
+Example static_tree_example :
+  let view := fun v : seen => RSmall (bare 200) (sn_path v) (lit "text/plain") (lit "utf-8") in
+  let a : app bytes :=
+    HostSwitch [(lit "h", Mount [(lit "/static", StaticLeaf C07.Model.KPages ex_cfg ex_env); (lit "", Leaf view)])] in
+  let get := fun path hs => ex_request (lit "GET") path ((lit "Host", lit "h") :: hs) in
+  let cache := (lit "cache-control", lit "public, max-age=600") in
+  let vary := (lit "vary", lit "Accept-Encoding, User-Agent, Cookie, Referer") in
+  all_leaves comparable_view a /\ has_static a = true /\
+  Forall (fun h => ~ In 95%N (fst h)) (rq_headers (aq_request (get (lit "/static/sub") []))) /\
+  static_ready (get (lit "/static/sub") []) (init (get (lit "/static/sub") [])) /\
+  serve_wsgi bytes_eqb 0 (get (lit "/static/sub") []) a =
+    OResp 307 [(lit "location", lit "//h/r/static/sub/?a=1"); (lit "content-length", lit "0")] [] /\
+  serve_wsgi bytes_eqb 0 (get (lit "/static/about") [(lit "If-None-Match", lit "W/""e1700000000500000000s13""")]) a =
+    OResp 304 [cache; vary; (lit "content-length", lit "0")] [] /\
+  serve_wsgi bytes_eqb 0 (get (lit "/static/about") [(lit "Range", lit "bytes=3-6")]) a =
+    OResp 206 [(lit "accept-ranges", lit "bytes"); (lit "last-modified", lit "D1700000000");
+               (lit "etag", lit """e1700000000500000000s13"""); cache; vary;
+               (lit "content-range", lit "bytes 3-6/13"); (lit "content-type", lit "text/html");
+               (lit "content-length", lit "4")] (lit "page") /\
+  serve_wsgi bytes_eqb 0 (get (lit "/static/nope") []) a = OHttp 404 /\
+  (forall path hs, In (path, hs) [(lit "/static/sub", []); (lit "/static/nope", []); (lit "/other", []);
+                                  (lit "/static/about", [(lit "If-None-Match", lit "W/""e1700000000500000000s13""")]);
+                                  (lit "/static/about", [(lit "Range", lit "bytes=3-6")])] ->
+     serve_asgi bytes_eqb 0 (get path hs) a = serve_wsgi bytes_eqb 0 (get path hs) a).
+Proof.
+  cbv zeta. split; [|split; [reflexivity|split; [|split; [|split; [|split; [|split; [|split]]]]]]].
+  - constructor. cbn [In]. intros ? [<-|[]]. cbn [snd]. constructor. cbn [In]. intros ? [<-|[<-|[]]]; cbn [snd].
+    + constructor. reflexivity.
+    + constructor. intro v. exact I.
+  - repeat constructor; cbn; intuition discriminate.
+  - split; [|split].
+    + unfold distinct_names. vm_compute. repeat constructor; cbn; intuition discriminate.
+    + unfold known_scheme. vm_compute. discriminate.
+    + unfold ascii. vm_compute. repeat constructor.
+  - vm_compute. reflexivity.
+  - vm_compute. reflexivity.
+  - vm_compute. reflexivity.
+  - vm_compute. reflexivity.
+  - cbn [In]. intros path hs H.
+    repeat (destruct H as [H|H]; [injection H as <- <-; vm_compute; reflexivity|]). destruct H.
+Qed.
+
+(* static_equiv / static_serves_file on the same world: every premise of the two theorems holds for this
+   leaf, request and state, and the file served for "/about" is about.html (C07's "+ .html"
+   alternative), revalidated by its own ETag *)
+Example static_leaf_example :
+  let rq := ex_request (lit "GET") (lit "/about") [(lit "If-None-Match", lit """e1700000000500000000s13"""); (lit "Host", lit "h")] in
+  let s := init rq in
+  C07.Model.wf_dir (sc_dir ex_cfg) = true /\
+  Forall (fun h => ~ In 95%N (fst h)) (rq_headers (aq_request rq)) /\
+  NoDup (map (fun h => lower (fst h)) (rq_headers (aq_request rq))) /\
+  C18.Model.default_port (aq_scheme rq) <> None /\
+  C09.Model.lifespan (s_req s) = false /\ C09.Model.path (s_req s) = Some (lit "/about") /\
+  Forall (fun ch => (ch < 128)%N)
+         (C09.Model.get (C09.Model.root (s_req s)) ++ C09.Model.get (C09.Model.path (s_req s))) /\
+  se_fs ex_env (sc_dir ex_cfg ++ SL :: C07.Model.INDEX_HTML) <> C07.Model.NDir /\
+  fst (C07.Model.app_call C07.Model.KPages (se_fs ex_env) (se_cwd ex_env) (sc_dir ex_cfg) (lit "/about")) =
+    C07.Model.Served (lit "/srv/www/about.html") 3 /\
+  cond_of C14.Model.Wsgi rq = (lit """e1700000000500000000s13""", []) /\
+  cond_of C14.Model.Asgi rq = (lit """e1700000000500000000s13""", []) /\
+  c14_not_modified ex_env 3 (lit """e1700000000500000000s13""") [] = true /\
+  static_wsgi C07.Model.KPages ex_cfg ex_env rq s = OResp 304 (headers_304 ex_cfg) [] /\
+  static_asgi C07.Model.KPages ex_cfg ex_env rq s = OResp 304 (headers_304 ex_cfg) [].
+Proof.
+  cbv zeta. repeat split; try (vm_compute; reflexivity); try (vm_compute; discriminate).
+  - repeat constructor; cbn; intuition discriminate.
+  - vm_compute. repeat constructor; cbn; intuition discriminate.
+  - vm_compute. repeat constructor.
+Qed.
+
+(* static_redirect_location on the same world: Host "h:8080", root path "/r", path "/sub", query "a=1" *)
+Example static_redirect_example :
+  let rq := ex_request (lit "GET") (lit "/sub") [(lit "Host", lit "h:8080")] in
+  let s := init rq in
+  let src := C18.Proofs.FromHost (C18.Proofs.Name (lit "h")) (Some 8080%N) (Some (lit "testserver", Some 80%N)) in
+  fst (C07.Model.pages_call (se_fs ex_env) (se_cwd ex_env) (sc_dir ex_cfg) (lit "/sub")) = C07.Model.Redirect (lit "/sub/") /\
+  utf8_decode (rq_query (aq_request rq)) = Some (lit "a=1") /\
+  url_request rq (hget (lit "host") (scope_headers (aq_request rq))) (lit "/r") (lit "/sub") (lit "a=1") =
+    C18.Proofs.request_of (lit "http") src (lit "/r") (lit "/sub") (lit "a=1") /\
+  C18.Model.default_port (lit "http") = Some 80%N /\ C18.Proofs.source_ok src = true /\
+  C18.Proofs.path_ok (lit "/r" ++ lit "/sub") = true /\ C18.Proofs.query_ok (lit "a=1") = true /\
+  static_asgi C07.Model.KPages ex_cfg ex_env rq s =
+    OResp 307 [(lit "location", lit "//h:8080/r/sub/?a=1"); (lit "content-length", lit "0")] [] /\
+  static_wsgi C07.Model.KPages ex_cfg ex_env rq s = static_asgi C07.Model.KPages ex_cfg ex_env rq s.
+Proof. cbv zeta. repeat split; vm_compute; reflexivity. Qed.
 
 Print Assumptions headers_view_equiv.
 Print Assumptions client_view_equiv.
 Print Assumptions body_view_equiv.
 Print Assumptions response_equiv.
 Print Assumptions host_view_equiv.
+Print Assumptions static_equiv.
+Print Assumptions static_serves_file.
+Print Assumptions static_redirect_location.
 Print Assumptions app_equiv.
 Print Assumptions app_equiv_below.
